@@ -27,6 +27,12 @@ var namedBehaviours = [][]op{
 	{{Op: "wh", C: 304}},
 	{{Op: "wh", C: 599}, {Op: "w"}},
 	{{Op: "wh", C: 999}},
+	// optional interfaces (LogMw!HijackBehNames)
+	{{Op: "hj", C: 1}},
+	{{Op: "hj", C: 2}, {Op: "wh", C: 500}, {Op: "w"}},
+	{{Op: "hj", C: 3}, {Op: "wh", C: 501}},
+	{{Op: "wh", C: 200}, {Op: "fl"}, {Op: "w"}},
+	{{Op: "fl"}, {Op: "wh", C: 500}},
 }
 
 // loopbackBehaviours are the ones a real net/http server and client carry
@@ -47,9 +53,17 @@ func randomOps(rnd *rand.Rand) []op {
 	n := rnd.IntN(4)
 	ops := make([]op, n)
 	for i := range ops {
-		if rnd.IntN(2) == 0 {
+		switch k := rnd.IntN(8); {
+		case k < 3:
 			ops[i] = op{Op: "w"}
-		} else {
+		case k == 3:
+			ops[i] = op{Op: "fl"}
+		case k == 4 && i == 0:
+			ops[i] = op{Op: "hj", C: 1 + rnd.IntN(3)}
+			if ops[i].C == 1 {
+				return ops[:1] // the connection is the handler's: the writer is not used any more
+			}
+		default:
 			ops[i] = op{Op: "wh", C: someCodes[rnd.IntN(len(someCodes))]}
 		}
 	}
@@ -137,7 +151,7 @@ func runStress(c stressCfg, res *vh.Result, seedStream uint64) (requests, policy
 				if c.tr != nil {
 					c.tr.begin(st)
 				}
-				if pv, panicked := vh.Try(func() { s.hs[entry].ServeHTTP(st.rec, r) }); panicked {
+				if pv, panicked := vh.Try(func() { s.hs[entry].ServeHTTP(st.w, r) }); panicked {
 					panics[i] = pv
 					st.problem("ServeHTTP panicked: %v", pv)
 				}
